@@ -104,6 +104,7 @@ func specParsed(p *FrameParser) bool {
 //@ requires[pre.nonnil]      p != nil
 //@ requires[pre.parsers]     p.parserv4 != nil && p.parserv6 != nil
 //@ ensures[C09.parse.class]  ret0 != nil && len(buffer) >= 1 ==> chain(ret0, *common.ReceiveProbeNoPktError) || chain(ret0, *common.BadPacketError)
+//@ ensures[C09.parse.only]   ret0 != nil ==> onlyRepoErrs(ret0, *common.ReceiveProbeNoPktError, *common.BadPacketError)
 //@ ensures[C09.parse.ok]     ret0 == nil ==> specParsed(p)
 //@ modifies FrameParser.IP4, FrameParser.IP6, FrameParser.TCP, FrameParser.ICMP4, FrameParser.ICMP6, FrameParser.Payload, FrameParser.Layers, gopacket.DecodingLayerParser
 
@@ -173,14 +174,16 @@ func specParsed(p *FrameParser) bool {
 //@ safety C09
 //@ requires[pre.nonnil]      parser != nil && source != nil
 //@ requires[pre.parsers]     parser.parserv4 != nil && parser.parserv6 != nil
+//@ requires[C10.rap.open]    selb(isOpen, ref(source))
 //@ ensures[C09.rap.ok]       ret0 == nil ==> specParsed(parser)
 //@ ensures[C09.rap.class]    ret0 != nil && !chain(ret0, *common.ReceiveProbeNoPktError) && !chain(ret0, *common.BadPacketError) ==> ioFail
+//@ ensures[C09.rap.only]     ret0 != nil ==> onlyRepoErrs(ret0, *common.ReceiveProbeNoPktError, *common.BadPacketError)
 //@ ensures[C09.rap.io]       ioFail == old(ioFail) || ret0 != nil
 //@ ensures[C05.rap.clock]    now() >= old(now())
 //@ modifies FrameParser.IP4, FrameParser.IP6, FrameParser.TCP, FrameParser.ICMP4, FrameParser.ICMP6, FrameParser.Payload, FrameParser.Layers, gopacket.DecodingLayerParser, elems(buffer), ghost clock, ghost ioFail
 
 //@ iface Source.Read
-//@ requires[pre.buf]      true
+//@ requires[C10.src.read.open] selb(isOpen, ref(self))
 //@ ensures[src.read.n]    0 <= ret0 && ret0 <= len(buf)
 //@ ensures[src.clock]     now() >= old(now())
 //@ ensures[src.exterr]    ret1 != nil ==> noRepoErr(ret1)
@@ -188,6 +191,7 @@ func specParsed(p *FrameParser) bool {
 //@ modifies elems(buf), ghost clock, ghost ioFail
 
 //@ iface Source.SetReadDeadline
+//@ requires[C10.src.deadline.open] selb(isOpen, ref(self))
 //@ ensures[src.exterr]    ret0 != nil ==> noRepoErr(ret0)
 //@ ensures[src.io]        ioFail == (old(ioFail) || ret0 != nil)
 //@ modifies ghost ioFail
@@ -205,6 +209,7 @@ func specParsed(p *FrameParser) bool {
 //@ modifies nothing
 
 //@ iface Sink.WriteTo
+//@ requires[C10.sink.write.open] selb(isOpen, ref(self))
 //@ ensures[sink.write]   wrN == old(wrN)+1 && wrClock == old(now()) && now() >= old(now())
 //@ ensures[sink.exterr]  ret0 != nil ==> noRepoErr(ret0)
 //@ modifies ghost wrN, ghost wrClock, ghost clock
